@@ -245,6 +245,15 @@ static std::string comment(vh::Rng &r)
   }
   return "<!-- -->";
 }
+// a gap between nodes may hold any number of comments, with or without white space between them
+static std::string comments(vh::Rng &r)
+{
+  std::string out;
+  int n = r.chance(2, 3) ? 1 : (int)r.range(2, 3);
+  for (int i = 0; i < n; ++i)
+    out += comment(r) + ws(r, false);
+  return out;
+}
 static void serialize(vh::Rng &r, TNode &n, std::string &out)
 {
   out += "<" + n.name;
@@ -262,7 +271,7 @@ static void serialize(vh::Rng &r, TNode &n, std::string &out)
   for (size_t i = 0; i <= n.child.size(); ++i) {
     out += ws(r, false);
     if (r.chance(1, 5))
-      out += comment(r) + ws(r, false);
+      out += comments(r);
     if ((int)i == n.contentPos && !n.content.empty())
       out += n.content + ws(r, false);
     if (i < n.child.size())
@@ -323,13 +332,13 @@ static Doc genDoc(vh::Rng &r, int maxDepth, long budget)
   int nroots = r.chance(3, 4) ? 1 : (int)r.range(0, 3);
   for (int i = 0; i < nroots; ++i) {
     if (r.chance(1, 5))
-      d.text += comment(r) + ws(r, false);
+      d.text += comments(r);
     d.roots.push_back(genNode(r, (int)r.below(maxDepth + 1), budget));
     serialize(r, d.roots.back(), d.text);
     d.text += ws(r, false);
   }
   if (r.chance(1, 6))
-    d.text += comment(r) + ws(r, false);
+    d.text += comments(r);
   return d;
 }
 
